@@ -1,6 +1,7 @@
 package main
 
 import (
+	"encoding/json"
 	"fmt"
 	"os"
 	"sort"
@@ -85,6 +86,12 @@ func (h *harness) streamHistory(n, maxSteps int) {
 				m[kv[j].(string)] = kv[j+1]
 			}
 			hist = append(hist, m)
+			if h.curFile != "" {
+				// mirrored for the parent: if this process is killed, this is the replay
+				if b, err := json.Marshal(hist); err == nil {
+					os.WriteFile(h.curFile, b, 0o644)
+				}
+			}
 		}
 		snapshot := func() []map[string]interface{} { return append([]map[string]interface{}{}, hist...) }
 		h.add(check{line: "N", want: "ok", group: grp})
@@ -112,6 +119,12 @@ func (h *harness) streamHistory(n, maxSteps int) {
 		if h.rng.Chance(35) {
 			reKind = h.rng.PickStr(reKinds)
 			if h.hangs[reKind] >= 1 {
+				reKind = ""
+			}
+			if strings.Contains(h.skipKinds, "panics") && strings.HasPrefix(reKind, "panics") {
+				reKind = ""
+			}
+			if strings.Contains(h.skipKinds, "reentrant") {
 				reKind = ""
 			}
 		}
@@ -243,7 +256,7 @@ func (h *harness) streamHistory(n, maxSteps int) {
 			add(check{line: fmt.Sprintf("O %s %d", encStr(name), t.id), want: "ok"})
 			return t
 		}
-		for k := h.rng.Intn(3); k > 0; k-- {
+		for k := 1 + h.rng.Intn(3); k > 0; k-- { // with the reference observer: at least three targets once one more joins
 			register(fmt.Sprintf("pre%d", k), "before-construction")
 		}
 		// a re-entrant observer: its callback registers another observer / reads getters / calls SetValues /
